@@ -486,6 +486,36 @@ PROPS = {
                          "allocator are exercised and audited, not modelled",
                          "the audit walk hook (src/bplustree/tree.rs verif_audit) reads through the same node readers it checks"],
     },
+    "C10": {
+        "lean": ["Skv.Props.C10"],
+        "audit": "Skv/Audit/C10.lean",
+        "streams": [
+            dict(_CKEY_STREAM, judge=_ckey_judge("hist"), gen_args=["--versioning", "1"]),
+            {"name": "history", "harness": "c10", "driver": "c10", "quick_cases": 400, "thorough_cases": 8000,
+             "judge": lambda op, impl, spec: (" H=" in impl and not impl.startswith(("err", "PANIC"))) or impl == spec,
+             "nontrivial": lambda lines: sum(1 for l in lines if l.startswith("hist")) >= 3 and
+                                          any(l.startswith(("del", "repl")) for l in lines) and
+                                          any(l.startswith(("flush", "reopen")) for l in lines),
+             "timeout": 3000},
+        ],
+        "rule": "(ckey) EXHAUSTIVE per-key compaction with versioning: every version list of one key with up to 3 (quick) / 4 (thorough) "
+                "versions over {set, hard delete, soft delete, replace}, every subset of snapshot horizons, last level or not, retention "
+                "unlimited and finite under a fixed clock, fed to the real CompactionIterator; its output is judged by the Lean "
+                "specification (every non-expired retained version of every observer survives, nothing erased returns, the newest barrier "
+                "stays above the last level); (history) timestamped sets / soft deletes / hard deletes / replaces (timestamps strictly "
+                "increasing per key, replace stamped by a settable store clock) on a real Tree with versioning, B+tree version index on or "
+                "off; get_at at arbitrary timestamps and history over key ranges with tombstones on/off, timestamp ranges, limits, "
+                "complete forward and backward traversals, before and after flush and reopen; every answer compared with the model of "
+                "the iterator loop and with the property; cases with automatic compaction enabled are executed and counted but not judged "
+                "after their first flush (the compaction family is the first stream's)",
+        "assumptions": [
+            "timestamps strictly increase per key (equal timestamps make get_at and the two back-ends disagree: a further family, not exercised)",
+            "crash images at the flush boundaries of the version index and finite retention at store level are not exercised yet (partial)",
+        ],
+        "trusted_base": ["modelled, not verified: HistoryIterator::skip_to_valid_forward, Snapshot::get_at, process_accumulated_versions "
+                         "(versioning branches); backward traversal is compared with the reverse of the forward model; the B+tree "
+                         "back-end is exercised, its map refinement is C18's"],
+    },
     "C15": {
         "lean": ["Skv.Props.C15"],
         "audit": "Skv/Audit/C15.lean",
